@@ -3314,7 +3314,7 @@ EB_API EbErrorType svt_av1_enc_set_parameter(
     EbComponentType              *svt_enc_component,
     EbSvtAv1EncConfiguration     *config_struct)
 {
-    if(svt_enc_component == NULL)
+    if(svt_enc_component == NULL || config_struct == NULL)
         return EB_ErrorBadParameter;
 
     EbEncHandle        *enc_handle  = (EbEncHandle*)svt_enc_component->p_component_private;
@@ -3374,7 +3374,7 @@ EB_API EbErrorType svt_av1_enc_stream_header(
 {
     EbErrorType              return_error = EB_ErrorNone;
 
-    if(!svt_enc_component)
+    if(!svt_enc_component || !output_stream_ptr)
         return EB_ErrorBadParameter;
 
     EbEncHandle             *enc_handle  = (EbEncHandle*)svt_enc_component->p_component_private;
@@ -3657,6 +3657,8 @@ EB_API EbErrorType svt_av1_enc_send_picture(
     EbComponentType      *svt_enc_component,
     EbBufferHeaderType   *p_buffer)
 {
+    if (svt_enc_component == NULL)
+        return EB_ErrorBadParameter;
     EbEncHandle          *enc_handle_ptr = (EbEncHandle*)svt_enc_component->p_component_private;
     EbObjectWrapper      *eb_wrapper_ptr;
 
@@ -3717,6 +3719,8 @@ EB_API EbErrorType svt_av1_enc_get_packet(
     unsigned char          pic_send_done)
 {
     EbErrorType             return_error = EB_ErrorNone;
+    if (svt_enc_component == NULL || p_buffer == NULL)
+        return EB_ErrorBadParameter;
     EbEncHandle          *enc_handle = (EbEncHandle*)svt_enc_component->p_component_private;
     EbObjectWrapper      *eb_wrapper_ptr = NULL;
     EbBufferHeaderType    *packet;
@@ -3747,7 +3751,7 @@ EB_API EbErrorType svt_av1_enc_get_packet(
 EB_API void svt_av1_enc_release_out_buffer(
     EbBufferHeaderType  **p_buffer)
 {
-    if (p_buffer && (*p_buffer)->wrapper_ptr)
+    if (p_buffer && *p_buffer && (*p_buffer)->wrapper_ptr)
     {
         if((*p_buffer)->p_buffer)
            EB_FREE((*p_buffer)->p_buffer);
@@ -3765,6 +3769,8 @@ EB_API EbErrorType svt_av1_get_recon(
     EbBufferHeaderType   *p_buffer)
 {
     EbErrorType           return_error = EB_ErrorNone;
+    if (svt_enc_component == NULL || p_buffer == NULL)
+        return EB_ErrorBadParameter;
     EbEncHandle          *enc_handle = (EbEncHandle*)svt_enc_component->p_component_private;
     EbObjectWrapper      *eb_wrapper_ptr = NULL;
 
@@ -4038,6 +4044,8 @@ EB_API EbErrorType svt_av1_enc_get_stream_info(EbComponentType *    svt_enc_comp
     if (stream_info_id >= SVT_AV1_STREAM_INFO_END || stream_info_id < SVT_AV1_STREAM_INFO_START) {
         return EB_ErrorBadParameter;
     }
+    if (svt_enc_component == NULL || info == NULL)
+        return EB_ErrorBadParameter;
     EbEncHandle         *enc_handle = (EbEncHandle*)svt_enc_component->p_component_private;
     if (stream_info_id == SVT_AV1_STREAM_INFO_FIRST_PASS_STATS_OUT) {
         EncodeContext*      context = enc_handle->scs_instance_array[0]->encode_context_ptr;
